@@ -35,6 +35,7 @@ def install_cuts(E):
         return FakeIndex(len(self))
 
     GB._build_group_sorted_index = _build_group_sorted_index
+    GB._real_get_row_selection = GB.__dict__["_get_row_selection"]          # kept for the index-restoration family of C15
     GB._get_row_selection = _get_row_selection
     GB._preprocess_arguments = _preprocess_arguments
     GB._convert_arr_to_pandas_series = _convert_arr_to_pandas_series
